@@ -208,6 +208,20 @@ def all_of(t):
   return ('none', neg(p))
 
 
+def _is_python_int(node):
+  """int(...) around the shifted operand (or a literal): the shift is done on an unbounded Python int."""
+  return isinstance(node, ast.Constant) or (isinstance(node, ast.Call) and isinstance(node.func, ast.Name) and node.func.id == 'int')
+
+
+def _leaf_fields(t):
+  if isinstance(t, tuple) and t:
+    if t[0] == 'f':
+      yield t[1]
+      return
+    for x in t[1:]:
+      yield from _leaf_fields(x)
+
+
 class Normalizer:
 
   def __init__(self, mod=None):
@@ -272,6 +286,17 @@ class Normalizer:
     if t is ast.BinOp:
       l, r = self.term(e.left, env), self.term(e.right, env)
       op = type(e.op).__name__
+      if op == 'LShift' and is_const(r) and isinstance(r[1], int) and r[1] >= 32 and not _is_python_int(e.left):
+        # numpy fixed-width integers (the mjModel id / bit-mask fields are int32): a shift by the full width or more
+        # gives 0, not a 64-bit value -- only a Python int (int(...)) shifts exactly
+        fields = [x for x in _leaf_fields(l)]
+        if fields and all(str(x).startswith('mj.') for x in fields):
+          return ('c', 0)
+      if op == 'BitOr':
+        if is_const(l) and l[1] == 0:
+          return r
+        if is_const(r) and r[1] == 0:
+          return l
       if op in ('BitAnd',) and is_pred(l) and is_pred(r):
         return mk_and([l, r])
       if op in ('BitOr',) and is_pred(l) and is_pred(r):
